@@ -58,8 +58,23 @@ func ints(s string) []int {
 	}
 	if trackSpares {
 		spares = append(spares, full[len(parts):])
+		handed = append(handed, full)
 	}
 	return out
+}
+
+// handed: every int list given to the library during the current step (whole backing array).
+var handed [][]int
+
+// scribble overwrites the lists handed to the library in the step that just ended: a library
+// that RETAINED a caller's slice (instead of copying it) shows a changed tensor afterwards.
+func scribble() {
+	for _, h := range handed {
+		for i := range h {
+			h[i] = -5555
+		}
+	}
+	handed = handed[:0]
 }
 
 const spareSentinel = -777777
